@@ -780,7 +780,91 @@ func (rc *realClient) do(method uint16, build func(b *wire.Builder)) *wire.Msg {
 // runC19Real: a real Server with the bundled port-range generator on the loopback interface and
 // a range smaller than the number of clients: every Allocate success must name a relayed address
 // no other live allocation has, and a peer's datagram to that address must come out at its owner.
+// runC19RealToken (operating-system sockets): one client reserves the port above its even relayed
+// port, a second one redeems the RESERVATION-TOKEN, a third presents the same token again while the
+// second's allocation lives: whatever the third is answered, it is not the second's relayed address.
+func runC19RealToken(t *testing.T, rng *rand.Rand, rec *sim.Rec, caseNo int) {
+	lc, err := net.ListenPacket("udp4", "127.0.0.1:0")
+	if err != nil {
+		rec.FP("real/unavailable")
+
+		return
+	}
+	var gen turn.RelayAddressGenerator = &turn.RelayAddressGeneratorNone{Address: "127.0.0.1"}
+	genName := "none"
+	if caseNo%2 == 1 {
+		gen, genName = &turn.RelayAddressGeneratorStatic{RelayAddress: net.IPv4(127, 0, 0, 1), Address: "127.0.0.1"}, "static"
+	}
+	srv, err := turn.NewServer(turn.ServerConfig{
+		Realm: "verif.test",
+		AuthHandler: func(ra *turn.RequestAttributes) (string, []byte, bool) {
+			return ra.Username, wire.LongTermKey("alice", "verif.test", "pw-a"), ra.Username == "alice"
+		},
+		PacketConnConfigs: []turn.PacketConnConfig{{PacketConn: lc, RelayAddressGenerator: gen}},
+		LoggerFactory:     sim.NewLogSink(),
+	})
+	if err != nil {
+		_ = lc.Close()
+		rec.Inconclusive("real server: %v", err)
+
+		return
+	}
+	defer srv.Close() //nolint:errcheck
+	srvAddr := lc.LocalAddr().(*net.UDPAddr)
+	var rcs []*realClient
+	for i := 0; i < 3; i++ {
+		c, err := net.ListenUDP("udp4", &net.UDPAddr{IP: net.IPv4(127, 0, 0, byte(1+i))})
+		if err != nil {
+			c, err = net.ListenUDP("udp4", &net.UDPAddr{IP: net.IPv4(127, 0, 0, 1)})
+		}
+		if err != nil {
+			return
+		}
+		defer c.Close() //nolint:errcheck
+		rcs = append(rcs, &realClient{c: c, srv: srvAddr, rng: rng})
+	}
+	m0 := rcs[0].do(wire.MethodAllocate, func(b *wire.Builder) {
+		b.Add(wire.AttrRequestedTransport, []byte{17, 0, 0, 0})
+		b.Add(wire.AttrEvenPort, []byte{0x80})
+	})
+	if m0 == nil || m0.Class != wire.ClassSuccess {
+		rec.FP("real/token/%s/even-port-refused", genName)
+
+		return
+	}
+	token, ok := m0.Get(wire.AttrReservationToken)
+	if !ok {
+		rec.FP("real/token/%s/no-token", genName)
+
+		return
+	}
+	var relays []string
+	for i := 1; i <= 2; i++ {
+		m := rcs[i].do(wire.MethodAllocate, func(b *wire.Builder) {
+			b.Add(wire.AttrRequestedTransport, []byte{17, 0, 0, 0})
+			b.Add(wire.AttrReservationToken, token)
+		})
+		if m == nil || m.Class != wire.ClassSuccess {
+			rec.FP("real/token/%s/redeemer-%d-refused-%d", genName, i, codeOfMsg(m))
+
+			continue
+		}
+		ip, port, _ := m.XorAddr(wire.AttrXORRelayedAddress)
+		relays = append(relays, (&net.UDPAddr{IP: ip, Port: port}).String())
+		rec.FP("real/token/%s/redeemer-%d-granted", genName, i)
+	}
+	if len(relays) == 2 && relays[0] == relays[1] {
+		rec.Violate("relay-shared", "real/reservation-token", "two clients on different 5-tuples presented the same RESERVATION-TOKEN and were both given the relayed address %s (real sockets, generator %s)", relays[0], genName)
+	}
+	rec.SetSample(map[string]any{"kind": "real-sockets-reservation-token", "generator": genName, "granted": len(relays)})
+}
+
 func runC19Real(t *testing.T, rng *rand.Rand, rec *sim.Rec, tier string, caseNo int) {
+	if caseNo%3 == 2 {
+		runC19RealToken(t, rng, rec, caseNo/3)
+
+		return
+	}
 	lc, err := net.ListenPacket("udp4", "127.0.0.1:0")
 	if err != nil {
 		rec.Ev("real-loopback-unavailable")
